@@ -13,6 +13,7 @@ PLAN.json (all optional):
   break_mutator: {cls, method, mod, salt}  make a mutator raise on some nodes
   break_apply  : {mod, salt}  make apply_simp raise for some candidates (inside the workers)
   observe_file : true  during every write of the output file, read the file at every traced line; contents other than the previous and the new one are listed in after.json 'torn'
+  check_tables : true  at every ddmin TaskGenerator construction compare get_sort/get_bv_width of every node with the answers after a fresh collect_information; differences in after.json 'stale_answers'
   keep_texts   : true  after.json gets 'writes_text', the rendering of every accepted input
   parse_only   : true  stop when the input has been read; after.json gets 'parsed' (nested lists)
   fixpoint     : {spec, opts}  after main(): enumerate every proposal on the
@@ -243,8 +244,38 @@ def main():
     debug_utils.dump_diff = dump_diff
     tg_init0 = strategy_ddmin.TaskGenerator.__init__
 
+    def table_answers(exprs):
+        out = []
+        for n in nodes.dfs(exprs):
+            try:
+                so = smtlib.get_sort(n)
+                so = None if so is None else str(so)
+            except Exception:  # noqa
+                so = 'raises'
+            try:
+                w = smtlib.get_bv_width(n)
+            except Exception:  # noqa
+                w = 'raises'
+            out.append((so, w, n))
+        return out
+
     def tg_init_names(self, exprs, gran, mutator, max_depth=None):
         state['current_mutator'] = type(mutator).__name__
+        if plan.get('check_tables') and os.getpid() == main_pid:
+            # proposals are about to be generated for ``exprs``: what the sort tables answer
+            # now must be what they answer once they are collected from ``exprs`` itself
+            try:
+                before = table_answers(exprs)
+                smtlib.collect_information(exprs)
+                fresh = table_answers(exprs)
+                for (s0, w0, n), (s1, w1, _) in zip(before, fresh):
+                    if (s0 not in (None, 'raises') and s0 != s1) or (w0 not in (-1, 'raises') and w0 != w1):
+                        if len(state.setdefault('stale_answers', [])) < 5:
+                            state['stale_answers'].append(dict(term=str(n)[:120], sort=s0, width=w0, fresh_sort=s1, fresh_width=w1,
+                                                               mutator=type(mutator).__name__))
+                state['table_checks'] = state.get('table_checks', 0) + 1
+            except Exception:  # noqa
+                state['table_check_errors'] = state.get('table_check_errors', 0) + 1
         return tg_init0(self, exprs, gran, mutator, max_depth)
 
     strategy_ddmin.TaskGenerator.__init__ = tg_init_names
@@ -366,6 +397,9 @@ def main():
                  stopped=state.get('stopped', False), repeat=state.get('repeat'),
                  too_many_accepts=state.get('too_many_accepts', False))
 
+    for k_ in ('stale_answers', 'table_checks', 'table_check_errors'):
+        if k_ in state:
+            after[k_] = state[k_]
     if plan.get('keep_texts'):
         after['writes_text'] = state['writes_text']
     if 'torn' in state:
